@@ -8,7 +8,12 @@ LEVEL_TEXT = ('bounded symbolic execution (CrossHair/z3) of (a) BasePath.abspath
               'directory name: all denote the same absolute directory; (b) iteration order as an '
               'adversarial schedule: write_depfile (.bfg_find_deps, both flavours) under every pair of '
               'orders of the find_dirs set gives the same dependency set and the same set of rule '
-              'lines, and EnvVarDict.changes does not depend on key order')
+              'lines, and EnvVarDict.changes does not depend on key order; (b\') the kernels whose '
+              '*ordered* result reaches a primary build file (install map and recipe lines, order-only '
+              'directory prerequisites, uniques, option_list, ForwardOptions.recurse) are re-compiled '
+              'from their live source with every set display / comprehension / set() call replaced '
+              'by a set whose iteration order the harness controls, and must give the same ordered '
+              'output under both schedules')
 LEVEL_NOTE = ('low-strength claim, stated as such: hash seeds, pid, time and unrelated environment '
               'variables are not inputs of any function; reading the code shows that find_dirs is the '
               'only set whose iteration order reaches a written (auxiliary) file, and that the MSBuild '
@@ -16,12 +21,14 @@ LEVEL_NOTE = ('low-strength claim, stated as such: hash seeds, pid, time and unr
               'property); whole-program byte comparison across PYTHONHASHSEED values is outside this '
               'technique')
 HARNESS = 'vpx.harness.c13'
-FUNCTIONS = ['BasePath.abspath', 'bfg9000.arguments.parser.Directory._abspath',
+FUNCTIONS = ['bfg9000.builtins.install.InstallOutputs.add/_add_implicit', 'install._install_files/_uninstall_files',
+             'bfg9000.backends.make.writer.directory_deps/multitarget_rule', 'iterutils.uniques',
+             'options.ForwardOptions.recurse', 'options.option_list.append/collect', 'BasePath.abspath', 'bfg9000.arguments.parser.Directory._abspath',
              'bfg9000.builtins.find.write_depfile', 'EnvVarDict.from_json/changes']
 OUTSIDE = ['byte comparison of complete build files across hash seeds', 'set literals / '
            'comprehensions elsewhere in the code (none reaches a primary output by inspection)',
            'pid, time, unrelated environment variables (not inputs of any function)']
-STUBS = ['os.getcwd -> arbitrary "/<name>"', 'open() in find.py -> in-memory file']
+STUBS = ['AdvSet (vpx/advset.py): insertion-ordered set, reversed under the second schedule; two schedules, not all permutations', 'os.getcwd -> arbitrary "/<name>"', 'open() in find.py -> in-memory file']
 ASSUMPTIONS = []
 EXHAUSTIVE = True
 
@@ -44,4 +51,6 @@ def obligations(tier, kf):
     s = Ob('s_find_deps', {}, 600, desc='find_dirs order pairs')
     c = Ob('c_changes_order', {}, 300, desc='changes vs key order')
     obs += [s, s.twin(), s.mutant('depfile_first_dir_only_as_target'), c, c.twin()]
+    o = Ob('o_set_order', {}, 600, desc='ordered kernels under two schedules of their sets')
+    obs += [o, o.twin(), o.mutant('install_deps_via_set'), o.mutant('directory_deps_via_set')]
     return obs
